@@ -205,7 +205,21 @@ CLAIMS.update({
           'not judged); titanfp is a trusted external evaluator. Known finding: the continuation of a with-block is emitted inside its annotation.'),
 })
 
+CLAIMS.update({
+ 'C11': dict(engine='Agree', technique='explicit TLA+ statement of bit-for-bit agreement checked with TLC over recorded (interpreter, compiled code) result pairs (mode V); in-domain runs additionally judged against the abstract machine run of the real AST', text=(
+     'Programs built only from operations a C++ toolchain rounds correctly are generated as source text (double and float contexts under '
+     'the four hardware rounding modes, nested with-blocks, branches, range / list / while loops, tuples, lists handed to helpers that write '
+     'to them), compiled by the real CppCompiler under several option sets (optimize, unbox NEVER / ALLOW / STRICT, static arrays), built with '
+     'g++ -O1 -frounding-math with the driver the repository\'s own test infrastructure emits, and run on argument vectors with zeros, a '
+     'subnormal, infinities and NaN. spec/Agree.tla decides every (interpreter, compiled) pair: same shape, lengths, booleans and number bits '
+     '(sign of zero counts, NaN agrees with NaN; wide numbers travel as tokens). Runs whose values stay inside the machine\'s domain are also '
+     'judged by MCMachine!Judge against the machine run of the real AST.'),
+     note='The oracle for wide (binary64) values is the interpreter itself, as the property states; g++ and libm are trusted for the allowed operations. '
+          'A program the backend refuses under an option set is counted, not judged.'),
+})
+
 ENGINES = [
+ ('Agree', 'spec/Agree.tla', ['C11'], 'bit-for-bit agreement of result structures'),
  ('Elementary', 'spec/Elementary.tla', ['C03'], 'correct rounding given an enclosure of the true value'),
  ('FactMachine', 'spec/FactMachine.tla', ['C13'], 'abstract machine with analysis facts checked on every step'),
  ('Runtime', 'spec/Runtime.tla', ['C18'], 'process-level runtime model: threads, cache, boundary copies, scoped MPFR settings'),
@@ -223,7 +237,7 @@ ENGINES = [
  ('NumberOps', 'spec/NumberOps.tla', ['C05'], 'denotational statement of the number types'),
  ('Encoding', 'spec/Encoding.tla', ['C16'], 'bit layouts and ordinal relations'),
  ('Stochastic', 'spec/Stochastic.tla', ['C17'], 'stochastic rounding count law'),
- ('FPyMachine', 'spec/FPyMachine.tla', ['C04', 'C07', 'C08', 'C09', 'C12', 'C13', 'C14', 'C20'], 'small-step abstract machine for FPy programs (real ASTs as data)'),
+ ('FPyMachine', 'spec/FPyMachine.tla', ['C04', 'C07', 'C08', 'C09', 'C11', 'C12', 'C13', 'C14', 'C20'], 'small-step abstract machine for FPy programs (real ASTs as data)'),
  ('MCMachine', 'spec/MCMachine.tla', ['C04'], 'machine runs judged against recorded interpreter outcomes; machine invariants'),
  ('EFT', 'spec/EFT.tla', ['C20'], 'laws of the error-free transformations on machine runs'),
  ('Literal', 'spec/Literal.tla', ['C06'], 'literal lexer and normal forms'),
